@@ -1,4 +1,4 @@
-import BoxoModel.C24.Lemmas
+import BoxoModel.C24.SyncLemmas
 /-!
 # C24 — Pin index is an exact multimap
 
@@ -102,6 +102,31 @@ theorem c24_empty_rejected (ns : Key) (s : Store) (k v : Bytes) :
       step ns s (.hasValue k []) = (s, .errEmptyValue)) := by
   simp [step]
 
+/-- **SyncIndex.** When every value occurs under one key only in the reference and in the target
+(the package's documented assumption; violated inputs make Go's value-keyed maps drop pairs), then
+`SyncIndex(reference, target)` with a non-empty reference leaves the target's datastore holding
+exactly the reference's pairs, and reports a change exactly when the two differed … -/
+theorem c24_syncIndex (ns : Key) (hns : NsOk ns) (sT : Store) (lR lT : MM) (hs : Sim ns sT lT)
+    (huR : ValuesUnique lR) (huT : ValuesUnique lT) (hnR : NonEmptyPairs lR) (hne : lR ≠ []) :
+    ∃ lT', (syncIndex ns sT (some lR)).2 = .changed (!(syncOps lR lT).isEmpty) ∧
+      Sim ns (syncIndex ns sT (some lR)).1 lT' ∧ (∀ p, p ∈ lT' ↔ p ∈ lR) ∧
+      ((syncOps lR lT).isEmpty = true ↔ ∀ p, p ∈ lT ↔ p ∈ lR) :=
+  syncIndex_sim ns hns sT lR lT hs huR huT hnR hne
+
+/-- … while an EMPTY reference leaves the target untouched and reports "unchanged" (the early return
+of the Go code: an empty reference does not clear the target). -/
+theorem c24_syncIndex_empty_ref (ns : Key) (sT : Store) :
+    syncIndex ns sT (some []) = (sT, .changed false) := by
+  simp [syncIndex, refsOf]
+
+/-- the multimap-level core of `c24_syncIndex` -/
+theorem c24_syncOps (lR lT : MM) (huR : ValuesUnique lR) (huT : ValuesUnique lT)
+    (hnR : NonEmptyPairs lR) (hnT : NonEmptyPairs lT) :
+    (∀ p, p ∈ (specRun lT (syncOps lR lT)).1 ↔ p ∈ lR) ∧
+    (∀ o ∈ (specRun lT (syncOps lR lT)).2, o = .ok) ∧
+    (syncOps lR lT = [] ↔ ∀ p, p ∈ lT ↔ p ∈ lR) :=
+  syncOps_spec lR lT huR huT hnR hnT
+
 /-! Non-vacuity: prefix-related keys "abc" / "abcd" under the namespace "/pins/index". -/
 example : NsOk "/pins/index".toList := Or.inr ⟨'p', "ins/index".toList, by decide, by decide⟩
 example : (run "/pins/index".toList []
@@ -109,5 +134,11 @@ example : (run "/pins/index".toList []
      .search [0x61, 0x62, 0x63], .deleteKey [0x61, 0x62, 0x63], .forEach [], .hasAny [0x61, 0x62]]).2
     = [.ok, .ok, .ok, .values [[3], [1]], .count 2, .pairs [([0x61, 0x62, 0x63, 0x64], [2])], .bool false] := by
   decide
+
+/-- SyncIndex: target {(a,1),(b,2)}, reference {(a,1),(c,2),(d,5)} -/
+example : (syncIndex "/idx".toList
+    (run "/idx".toList [] [.add [0x61] [1], .add [0x62] [2]]).1
+    (some [([0x61], [1]), ([0x63], [2]), ([0x64], [5])])).2 = .changed true := by decide
+example : ValuesUnique [([0x61], [1]), ([0x63], [2]), ([0x64], [5])] := by unfold ValuesUnique; decide
 
 end C24
